@@ -9,11 +9,11 @@ out=$D/verify.log; : > $out
 git apply $D/patch.diff || { echo "$ID $S APPLY-FAIL"; exit 1; }
 export CARGO_TARGET_DIR=$W/target
 cargo build --workspace --offline >>$out 2>&1 || { echo "$ID $S BUILD-FAIL"; git checkout -q -- .; exit 1; }
-RUSTFLAGS="--cfg cadence_verif" CARGO_TARGET_DIR=$W/target_on cargo build --workspace --offline >>$out 2>&1 || { echo "$ID $S BUILD-ON-FAIL"; git checkout -q -- .; exit 1; }
-suite=$(cargo test --workspace --no-fail-fast --offline 2>&1 | grep -E "^test result" | tr '\n' ';')
+RUSTC_BOOTSTRAP=1 RUSTFLAGS="--cfg cadence_verif" CARGO_TARGET_DIR=$W/target_on cargo build --workspace --offline >>$out 2>&1 || { echo "$ID $S BUILD-ON-FAIL"; git checkout -q -- .; exit 1; }
+suite=$(timeout 300 cargo test --workspace --no-fail-fast --offline 2>&1 | grep -E "^test result" | tr '\n' ';')
 cp $D/demo.rs $crate/tests/seed_demo.rs
-with=$(cargo test -p $crate --test seed_demo --offline 2>&1 | grep -E "^test result" | head -1)
+with=$(timeout 200 cargo test -p $crate --test seed_demo --offline 2>&1 | grep -E "^test result" | head -1)
 git checkout -q -- .
-without=$(cargo test -p $crate --test seed_demo --offline 2>&1 | grep -E "^test result" | head -1)
+without=$(timeout 200 cargo test -p $crate --test seed_demo --offline 2>&1 | grep -E "^test result" | head -1)
 rm -f $crate/tests/seed_demo.rs
 echo "$ID $S | suite: $suite | demo with change: $with | demo without: $without" | tee -a $out
